@@ -328,6 +328,21 @@ def check_ranges(
                 raise ValueError("Value of target fit range is wrong")
 
 
+def _get_slice_length(obj: slice) -> int | None:
+    """Get the number of elements selected by a slice (``None`` if it has no stop)."""
+    if obj.stop is None:
+        return None
+
+    return obj.stop - (obj.start or 0)
+
+
+def _check_slice(obj: slice, size: int) -> None:
+    """Check that a slice is inside a dimension of length 'size'."""
+    for value in (obj.start, obj.stop):
+        if value is not None and not (0 <= value <= size):
+            raise ValueError("Value of target fit range is wrong")
+
+
 @dataclass(frozen=True)
 class FitRange2D:
     """Represent a 2D range or slice with a row range and a column range.
@@ -373,11 +388,8 @@ class FitRange2D:
         return self.row, self.col
 
     def check(self, rows: int, cols: int):
-        if not self.row.stop <= rows:
-            raise ValueError("Value of target fit range is wrong")
-
-        if not self.col.stop <= cols:
-            raise ValueError("Value of target fit range is wrong")
+        _check_slice(self.row, size=rows)
+        _check_slice(self.col, size=cols)
 
 
 @dataclass(frozen=True)
@@ -437,17 +449,13 @@ class FitRange3D:
         return self.time, self.row, self.col
 
     def check(self, rows: int, cols: int, readout_times: int | None = None):
-        if not self.row.stop <= rows:
-            raise ValueError("Value of target fit range is wrong")
-
-        if not self.col.stop <= cols:
-            raise ValueError("Value of target fit range is wrong")
+        _check_slice(self.row, size=rows)
+        _check_slice(self.col, size=cols)
 
         if readout_times is None:
             raise ValueError("Target data is not a 3 dimensional array")
 
-        if not self.time.stop <= readout_times:
-            raise ValueError("Value of target fit range is wrong")
+        _check_slice(self.time, size=readout_times)
 
 
 def to_fit_range(
@@ -473,16 +481,17 @@ def _check_out_fit_ranges(
     if (
         isinstance(target_fit_range, FitRange3D)
         and isinstance(out_fit_range, FitRange3D)
-        and target_fit_range.time.stop != out_fit_range.time.stop
+        and _get_slice_length(target_fit_range.time)
+        != _get_slice_length(out_fit_range.time)
     ):
         raise ValueError(
             "Fitting ranges have different lengths in dimension 'readout time'"
         )
 
-    if target_fit_range.row.stop != out_fit_range.row.stop:
+    if _get_slice_length(target_fit_range.row) != _get_slice_length(out_fit_range.row):
         raise ValueError("Fitting ranges have different lengths in dimension 'y'")
 
-    if target_fit_range.col.stop != out_fit_range.col.stop:
+    if _get_slice_length(target_fit_range.col) != _get_slice_length(out_fit_range.col):
         raise ValueError("Fitting ranges have different lengths in dimension 'x'")
 
 
